@@ -24,6 +24,7 @@ def check(chk):
     chk.rule('C12.shutdown_test', 'the is_shutdown test dominates every hand-out of a connection')
     chk.rule('C12.noorphan_dec', 'return_connection(stream_was_orphaned=True) does not decrement in_flight')
     chk.rule('C12.drain', 'shutdown closes every connection the pool tracks: _connection / _connections / _trash, draining the saved copy after a swap')
+    chk.rule('C12.paired', 'Connection.set_keyspace_async hands the connection to its callback (which returns it to the pool, decrementing in_flight) only after it has incremented in_flight')
     chk.rule('C12.trash', 'a connection is removed from _trash only on a path that closes it')
     chk.rule('C12.created', 'a connection obtained from connection_factory is published or closed on every path, including exceptional ones')
     chk.rule('C12.publish', 'a connection created after the shutdown test is published under the pool lock together with a re-test of is_shutdown')
@@ -205,3 +206,22 @@ def check(chk):
         chk.judge(good, 'C12.publish', f, '%s: self.%s published under self._lock with is_shutdown re-tested' % (q, attr),
                   'the shutdown test happens before the (slow) connect; the new connection is stored without re-testing is_shutdown under the lock, '
                   'so a connection can be published into a pool that was shut down meanwhile and is never closed')
+
+    # ---- the keyspace-switch callback of both pools returns the connection: the increment must have happened on every path that reaches it
+    conn_m = chk.repo.mod('cassandra/connection.py')
+    sk = conn_m.func('Connection.set_keyspace_async')
+    gsk = CFG(sk)
+
+    def stepk(node, c):
+        if node.kind == 'stmt' and isinstance(node.ast, ast.AugAssign) and src(node.ast.target) == 'self.in_flight' and isinstance(node.ast.op, ast.Add):
+            return True
+        return c
+    flk = Flow(gsk, False, stepk)
+    cbs = [n for n in gsk.stmt_nodes() if n.kind == 'stmt' and n.ast is not None and any(isinstance(x, ast.Call) and isinstance(x.func, ast.Name) and x.func.id == 'callback'
+                                                                                        for x in walk_no_nested(n.ast))]
+    if not cbs:
+        raise AnalysisError('set_keyspace_async: direct callback invocation not found')
+    early = [n for n in cbs if not all(c for _f, c in flk.at(n))]
+    chk.judge(not early, 'C12.paired', sk, 'set_keyspace_async: callback(...) only after self.in_flight += 1',
+              'the callback runs (line %s) on a path that has not incremented in_flight; both pools\' callbacks call return_connection, so in_flight goes negative and the '
+              'pool later hands out more streams than the connection has' % sorted(n.line() for n in early))
